@@ -44,8 +44,7 @@
 (***************************************************************************)
 EXTENDS OciRegistry
 
-CONSTANTS Contents,   \* the contents explored (Init picks one)
-          TheRepo     \* the repository pushed to
+CONSTANT TheRepo     \* the repository pushed to
 
 \* ------------------------------------------------------------------ pure --
 MansOf(C) == DOMAIN C.mans
@@ -104,8 +103,7 @@ VARIABLES content,   \* the content being pushed
 pvars == <<content, pc, done, seq, required, todo, progress, needMore, passes, bleft, mi, tleft, out, missing>>
 allvars == <<vars, pvars>>
 
-\* The content is picked by a first step rather than by the initial state (TLC computes initial states
-\* one by one; successors in parallel).
+\* The content is picked by a first step, Start(C) (a configuration says which contents: OciTestContentMC).
 NoContent == [blobs |-> {}, mans |-> <<>>, tags |-> <<>>]
 PInit ==
   /\ Init /\ imm = FALSE
@@ -114,11 +112,11 @@ PInit ==
   /\ todo = {} /\ progress = FALSE /\ needMore = FALSE /\ passes = 1
   /\ bleft = {} /\ mi = 1 /\ tleft = {}
   /\ out = "" /\ missing = {}
-Choose ==
+Start(C) ==
   /\ pc = "choose"
-  /\ content' \in Contents
+  /\ content' = C
   /\ pc' = "complete"
-  /\ todo' = MansOf(content') /\ bleft' = content'.blobs /\ tleft' = DOMAIN content'.tags
+  /\ todo' = MansOf(C) /\ bleft' = C.blobs /\ tleft' = DOMAIN C.tags
   /\ UNCHANGED <<done, seq, required, progress, needMore, passes, mi, out, missing, vars>>
 
 Finish(o, miss) == pc' = "done" /\ out' = o /\ missing' = miss
@@ -188,7 +186,6 @@ Return ==
   /\ UNCHANGED <<content, done, seq, required, todo, progress, needMore, passes, bleft, mi, tleft, vars>>
 
 PNext ==
-  \/ Choose
   \/ \E m \in todo : Visit(m)
   \/ EndPass
   \/ \E b \in bleft : PushOneBlob(b)
@@ -196,10 +193,10 @@ PNext ==
   \/ \E t \in tleft : PushOneTag(t)
   \/ Return
 \* "done" stutters, so that a deadlock reported by TLC is a pusher that stops without an outcome
-PNextD == PNext \/ (pc = "done" /\ UNCHANGED allvars)
-PSpec == PInit /\ [][PNextD]_allvars /\ WF_allvars(PNext)
-\* without the fairness condition (safety configurations)
-PSafeSpec == PInit /\ [][PNextD]_allvars
+Stutter == pc = "done" /\ UNCHANGED allvars
+\* the pusher run on any content of the set S
+PNextOver(S) == (\E C \in S : Start(C)) \/ PNext \/ Stutter
+PSpecOver(S) == PInit /\ [][PNextOver(S)]_allvars /\ WF_allvars((\E C \in S : Start(C)) \/ PNext)
 
 \* ------------------------------------------------------------ properties --
 \* termination: every behaviour reaches "done" (PassBound says how soon the loop ends)
